@@ -205,7 +205,7 @@ func C15(tier string) int {
 		Prop: "C15", Level: "model_checking", Scopes: []string{"c15-seeds", "c15-nested"},
 		Rule:        "source states: every seed state (inline, leaf, 2- and 3-level trees, overflow values, nested buckets, free runs) and every state reachable by the explicit-state exploration of nested-bucket programs (buckets to depth 3, empty and multi-page values, non-zero sequences at every level) within the bound; for each source state the file is copied and compacted into an empty destination for every transaction-size limit from 0 to total key+value bytes + 1 when that is within the stated ceiling, otherwise for every limit at which the split pattern can change (all sums of up to 12 consecutive item sizes -1/+0/+1), through bbolt.Compact and (every 3rd limit) through the real `bbolt compact` command; oracle: destination content incl. nesting and sequences equals the model, Tx.Check and page accounting clean, source SHA-256 unchanged, command exits 0",
 		Assumptions: []string{"the CLI is run in-process through command.NewRootCommand()"},
-		Quick:       100 * time.Second, Thorough: 25 * time.Minute,
+		Quick:       100 * time.Second, Thorough: 10 * time.Minute,
 		Cov: func(total *hx.Stats, cov map[string]interface{}) {
 			cov["evaluations"] = total.Counters["compactions"]
 			cov["distinct_nontrivial"] = total.Counters["compactions"]
